@@ -14,3 +14,18 @@ reg("C33", "exploration", "runtime monitor over an exhaustively enumerated finit
 reg("C13", "exploration", "runtime monitor: panic/fatal capture in crash-isolated workers + logical step-budget hook (build tag verif) + error-order and Bad-node invariants over token soup, hostile bytes, deep nesting and corpus mutants in 11 mode combinations and 5 entry points",
     "Every generated input is parsed by the real parser through ParseFile/class mode/ParseExpr/ParseExprFrom/ParseFSDir; a panic or runtime fatal error is attributed to the journalled case; hangs are decided by a step counter hooked into next0/error/advance/parseStmt/parseOperand, never by wall clock.",
     "Nesting depth is bounded (2*10^3 quick, 2*10^4 thorough); a loop that never reaches a hooked function would only trip the wall-clock watchdog (inconclusive).")
+reg("C27", "exploration", "runtime monitor: panic capture around tpl.New/tpl.NewEx over exhaustively enumerated literal/token spellings, a grammar-of-grammars generator and byte-mutated repository grammars",
+    "Every grammar text of the run is compiled by the real tpl.New and tpl.NewEx in crash-isolated workers; every byte value in 6 escape spellings and every token spelling with 1-character mutations are enumerated exhaustively.",
+    "Ret-proc closures are not exercised.")
+reg("C28", "exploration", "runtime monitor: progress hooks inside the matcher (build tag verif) — a repetition back-edge that consumed nothing, or a rule re-entered at the same input position, proves divergence logically; step budget exhaustion is inconclusive",
+    "Random grammars biased to nullable repetition bodies and left recursion are compiled and, if accepted, matched against 15 inputs through Match/ParseExpr/Parse with the hooks armed; no wall-clock verdicts.",
+    "Matchers are pure functions of the remaining input; ret-procs are not used.")
+reg("C29", "exploration", "runtime monitor: differential execution against a ~100-line reference PEG interpreter restating tpl/README.md (result trees compared token-by-offset), inputs = grammar derivations perturbed into near-matches",
+    "For every generated grammar/input pair Compiler.Match must agree with the reference on success/failure, tokens consumed and the result tree.",
+    "Domain restriction stated in evidence.rule: choice alternatives and repetition bodies are non-nullable (README is silent there).")
+reg("C30", "exploration", "runtime monitor: left-fold reference model for List/ListOp/RangeOp/BinaryOp/BinaryExpr on synthetic `R % sep` results + README calculator vs precedence-climbing evaluator",
+    "Non-commutative, non-associative fold functions make any order/associativity error visible in the result string; the calculator is the README grammar compiled by the real tpl.New.",
+    "int64 arithmetic; division-by-zero expressions skipped.")
+reg("C31", "exploration", "runtime monitor: reference printer/parser round-trip — random grammar expression trees printed with minimal parentheses must parse back to the same tree; damaged texts must be rejected",
+    "tpl/parser.ParseFile runs on every printed tree; the shape of the returned tree is compared with the generator's tree.",
+    "The harness printer restates the documented precedence unary > ++ > % > sequence > |.")
